@@ -221,12 +221,12 @@ theorem frame_pollerPoll (s : State) (ready) (nret) : Frame s (pollerPoll s read
     · exact frame_wait s _
   | epoll =>
     simp only
-    by_cases h1 : ready.length > (emit s (.wait s.evsize kPollTimeMs)).evsize ∨ nret ≠ ready.length
-    · rw [if_pos h1]
-      exact ((frame_wait s _).trans (frame_emit _ .badEnv (by simp [Ev.isPlumb]) rfl)).trans (frame_abort _ _)
-    · rw [if_neg h1]
-      by_cases h2 : epHasEvents (nret : Int)
-      · rw [if_pos h2]
+    by_cases h2 : epHasEvents (nret : Int)
+    · rw [if_pos h2]
+      by_cases h1 : ready.length > (emit s (.wait s.evsize kPollTimeMs)).evsize ∨ nret ≠ ready.length
+      · rw [if_pos h1]
+        exact ((frame_wait s _).trans (frame_emit _ .badEnv (by simp [Ev.isPlumb]) rfl)).trans (frame_abort _ _)
+      · rw [if_neg h1]
         have h := frame_epollFill ready (emit s (.wait s.evsize kPollTimeMs)) []
         generalize epollFill (emit s (.wait s.evsize kPollTimeMs)) ready [] = p at h
         obtain ⟨s1, act⟩ := p
@@ -236,7 +236,7 @@ theorem frame_pollerPoll (s : State) (ready) (nret) : Frame s (pollerPoll s read
           exact ⟨rfl, rfl, rfl, rfl, fun _ => rfl, fun _ => rfl, fun _ => rfl, id,
             [.grow (epGrowTo s1.evsize)], rfl, by simp [Ev.isPlumb], by simp [Ev.isAbort]⟩
         · exact (frame_wait s _).trans h
-      · rw [if_neg h2]; exact frame_wait s _
+    · rw [if_neg h2]; exact frame_wait s _
 
 theorem frame_bookkeeping (s : State) (it : Nat) (act : List Nat) (h : Bool) (c : Option Nat) :
     Frame s { s with iteration := it, active := act, handling := h, cur := c } :=
